@@ -31,7 +31,7 @@ BUDGET = {'quick': 100, 'thorough': 1500}
 TIMEOUT = 120
 SHRINK_LISTS = [['adds']]
 EXPECTED_PROBES = ['duplicate_idx', 'auto_idx', 'mixed_types', 'later_added_target', 'dangling', 'backref_checked', 'finder_created',
-                   'finder_shared', 'lookups']
+                   'finder_shared', 'lookups', 'group_lookup_across_models']
 RULE = ('plan = seeded add sequence (device kinds, index styles, order, optional dangling reference) + seeded lookup queries; '
         'non-trivial = at least one duplicate/auto index, later-added target or dangling reference; distinct = (index style multiset, '
         'order class, dangling kind, number of devices)')
@@ -323,13 +323,17 @@ def _lookups(ss, reg, by_group, plan, v, probes):
                            (rr['model'], pn, val, list(got_all), exp_model), what='find_idx_model'))
                 return
             if all(pn in m2.__dict__ for m2 in grp.models.values()):
-                exp_first = None
-                for m2 in grp.models.values():      # group answers with the first model (registration order) that has a match
+                exp_first = []
+                nmod = 0
+                for m2 in grp.models.values():      # allow_all: every device with that value, from whichever model of the group holds it
                     cand = [r2['idx'] for r2 in reg.values() if r2['model'] == m2.class_name and _same(r2['params'].get(pn), val)]
                     cand = _in_model_order(m2, cand)
                     if cand:
-                        exp_first = cand
-                        break
+                        exp_first.extend(cand)
+                        nmod += 1
+                if nmod > 1:
+                    probes['group_lookup_across_models'] = probes.get('group_lookup_across_models', 0) + 1
+                exp_first = exp_first or None
                 try:
                     gg = grp.find_idx(pn, [val], allow_all=True, allow_none=True, default=None)[0]
                 except Exception as e:
